@@ -64,17 +64,56 @@ func c15Targets(a *c15Anchors) (out []*c15Target, undec []string) {
 			continue
 		}
 		info := f.Info()
-		for pi, p := range f.Params() {
-			p := p
-			if _, isPtr := p.Type().(*types.Pointer); isPtr && c15IsNEC(p.Type()) {
-				isN := c15IsVar(info, p)
-				for _, fld := range []string{"Points", "EdgePoints"} {
-					fld := fld
-					out = append(out, &c15Target{f: f, fields: []string{fld}, what: fld,
-						is: func(e ast.Expr) bool { return c15Field(info, e, fld, isN) }})
+		// local slices defined once as a node's Points / EdgePoints
+		defs := map[types.Object]int{}
+		fieldOf := map[types.Object]string{}
+		ast.Inspect(f.Body, func(n ast.Node) bool {
+			as, ok := n.(*ast.AssignStmt)
+			if !ok {
+				return true
+			}
+			for i, l := range as.Lhs {
+				o, ok := kit.ObjOf(info, l).(*types.Var)
+				if !ok || o.IsField() || !c15IsPointSlice(o.Type()) {
+					continue
 				}
+				defs[o]++
+				if len(as.Lhs) == len(as.Rhs) {
+					if fld := c15PointField(info, as.Rhs[i]); fld != "" {
+						fieldOf[o] = fld
+					}
+				}
+			}
+			return true
+		})
+		for o, fld := range fieldOf {
+			if defs[o] != 1 {
 				continue
 			}
+			o, fld := o, fld
+			out = append(out, &c15Target{f: f, fields: []string{fld}, what: fld,
+				is: func(e ast.Expr) bool { return kit.ObjOf(info, ast.Unparen(e)) == o }})
+		}
+		// node-like parameters and named results: their Points / EdgePoints
+		var nodes []*types.Var
+		for _, p := range f.Params() {
+			if c15IsNEC(p.Type()) || kit.IsNamedType(p.Type(), dataPkg, "NodeEdge") {
+				nodes = append(nodes, p)
+			}
+		}
+		if r := c15ResultNEC(f); r != nil {
+			nodes = append(nodes, r)
+		}
+		for _, p := range nodes {
+			isN := c15IsVar(info, p)
+			for _, fld := range []string{"Points", "EdgePoints"} {
+				fld := fld
+				out = append(out, &c15Target{f: f, fields: []string{fld}, what: fld,
+					is: func(e ast.Expr) bool { return c15Field(info, e, fld, isN) }})
+			}
+		}
+		for pi, p := range f.Params() {
+			p := p
 			if !c15IsPointSlice(p.Type()) {
 				continue
 			}
